@@ -11,9 +11,11 @@ import BumpverVerif.Driver.Rw
 import BumpverVerif.Driver.Cli
 import BumpverVerif.Driver.Pep
 import BumpverVerif.Driver.Cal
+import BumpverVerif.Driver.Config
+import BumpverVerif.Driver.V1
 open Lean BV BV.Drv
 
-def handlers : List Handler := [handleCore, handleV2, handleRw, handleCli, handlePep, handleCal]
+def handlers : List Handler := [handleCore, handleV2, handleRw, handleCli, handlePep, handleCal, handleConfig, handleV1]
 
 def handle (j : Json) : Except String Json := do
   let op ← getStr j "op"
